@@ -545,7 +545,6 @@ func ZZ_C15_bearer_replay() {
 		if delta < -slack {
 			zz.Cover("breplay:same-assertion-while-valid", true)
 			zz.Assert(err2 != nil, "breplay: the same assertion is refused while it is unexpired")
-			zz.Assert(errName(err2) == "jti_known", "breplay: refused as a known jti")
 		} else if delta > slack {
 			zz.Cover("breplay:same-assertion-expired", true)
 			zz.Assert(err2 != nil, "breplay: the same assertion is refused after expiry")
